@@ -1176,11 +1176,26 @@ class Terms:
                     aliases.add(s2["place"]["l"])
         t = blk["term"]
         prev = self.place(local, dpath, bb, i, depth + 1)
-        if t and t["k"] == "call":
-            idxs = [j for j, a in enumerate(t["args"]) if a["k"] in ("copy", "move") and a["place"]["l"] in aliases]
-            if idxs:
-                others = tuple(self.operand(a, bb, "t", depth + 1) for j, a in enumerate(t["args"]) if j not in idxs)
-                return ("upd", self.call_name(t), prev, others)
+        cb = bb
+        for _ in range(12):
+            if t and t["k"] == "call":
+                idxs = [j for j, a in enumerate(t["args"]) if a["k"] in ("copy", "move") and a["place"]["l"] in aliases]
+                if idxs:
+                    others = tuple(self.operand(a, cb, "t", depth + 1) for j, a in enumerate(t["args"]) if j not in idxs)
+                    return ("upd", self.call_name(t), prev, others)
+            # two-phase borrows: the reference is taken, the other arguments are evaluated (possibly by calls in
+            # following blocks), then the reference is consumed — follow the straight-line continuation
+            nxt = [sc for sc in self.body.succs(cb) if not self.body.blocks[sc]["cleanup"]]
+            if len(nxt) != 1 or (t and t["k"] in ("switch", "yield", "return")):
+                break
+            cb = nxt[0]
+            blk2 = self.body.blocks[cb]
+            for s2 in blk2["stmts"]:
+                if s2["k"] == "assign" and s2["rv"]["k"] in ("ref", "use", "rawptr", "cast"):
+                    src = s2["rv"].get("place") or (s2["rv"].get("op") or {}).get("place")
+                    if src and src["l"] in aliases:
+                        aliases.add(s2["place"]["l"])
+            t = blk2["term"]
         # the borrow is consumed elsewhere (e.g. by an awaited call): the object is the same, its contents may differ
         return ("upd", "?", prev, ())
 
@@ -1296,8 +1311,19 @@ def simplify_term(t):
         return (t[0], x)
     if t[0] == "gamma":
         c = simplify_term(t[1])
-        brs = [(l, simplify_term(v)) for l, v in t[2]]
+        brs = [(l, simplify_term(_resolve_nested(v, t[1], l))) for l, v in t[2]]
         brs = [(l, v) for l, v in brs if v != ("never",)] or brs
+        if isinstance(c, tuple) and c and c[0] == "gamma" and all(isinstance(v, tuple) and v and v[0] == "const" and isinstance(v[1], int) for l, v in c[2]):
+            # a selection on a selection of constants (`if opt.is_some() {a} else {b}`): select on the inner test directly
+            inner = []
+            for l_in, k in c[2]:
+                hit = [v for l, v in brs if lab_holds(l, str(k[1]))]
+                if len(hit) != 1:
+                    inner = None
+                    break
+                inner.append((l_in, hit[0]))
+            if inner is not None:
+                return simplify_term(("gamma", c[1], tuple(inner)))
         dec = [_decide_label(c, l) for l, v in brs]
         if any(d is True for d in dec):
             return [v for (l, v), d in zip(brs, dec) if d is True][0]
@@ -1330,6 +1356,29 @@ def simplify_term(t):
     if t[0] == "upd":
         return ("upd", t[1], simplify_term(t[2]), tuple(simplify_term(a) for a in t[3]))
     return t
+
+
+def _labels_compatible(a, b):
+    if a[0] == "in" and b[0] == "in":
+        return bool(set(a[1:]) & set(b[1:]))
+    if a[0] == "in":
+        return bool(set(a[1:]) - set(b[1:]))
+    if b[0] == "in":
+        return bool(set(b[1:]) - set(a[1:]))
+    return True
+
+
+def _resolve_nested(v, cond, lab, depth=0):
+    """inside the branch `lab` of a selection on `cond`, a nested selection on the same `cond` is already decided"""
+    if depth > 40 or not isinstance(v, (tuple, frozenset)) or not v:
+        return v
+    if isinstance(v, frozenset):
+        return frozenset(_resolve_nested(x, cond, lab, depth + 1) for x in v)
+    if v[0] == "gamma" and v[1] == cond:
+        live = [(l2, b) for l2, b in v[2] if _labels_compatible(lab, l2)]
+        if len(live) == 1:
+            return _resolve_nested(live[0][1], cond, lab, depth + 1)
+    return tuple(_resolve_nested(x, cond, lab, depth + 1) if isinstance(x, (tuple, frozenset)) else x for x in v)
 
 
 _STD_IDX = {"Option": {"None": "0", "Some": "1"}, "Result": {"Ok": "0", "Err": "1"}, "ControlFlow": {"Continue": "0", "Break": "1"}, "Poll": {"Ready": "0", "Pending": "1"}}
@@ -1638,6 +1687,36 @@ def emptiness_test(t, labs):
     return None
 
 
+def eq_test(t, labs):
+    """-> (frozenset{a, b}, polarity): the edge asserts a == b (True) / a != b (False); Eq/Ne binops, PartialEq::eq/ne
+    calls and negations of them; None when t is not an equality test or the edge asserts neither"""
+    a, pol = bool_atom(t, labs)
+    if pol is None or not isinstance(a, tuple) or not a:
+        return None
+    if a[0] == "binop" and a[1] in ("Eq", "Ne"):
+        return frozenset((a[2], a[3])), (pol if a[1] == "Eq" else not pol)
+    if len(a) == 4 and a[0] == "call" and isinstance(a[1], str) and len(a[2]) == 2:
+        from . import names as _n
+        if _n.is_(a[1], "PartialEq::eq"):
+            return frozenset(a[2]), pol
+        if _n.is_(a[1], "PartialEq::ne"):
+            return frozenset(a[2]), not pol
+    return None
+
+
+def iterator_source(t):
+    """the iterator a loop walks: for the receiver term of `Iterator::next` inside a `for` loop — phi{initial iterator,
+    the same state advanced by next()} — return the initial iterator expression when the state is advanced by nothing
+    else; for any other term return it unchanged"""
+    if isinstance(t, tuple) and t and t[0] == "phi":
+        base = [x for x in t[1] if not (isinstance(x, tuple) and len(x) == 4 and x[0] == "upd")]
+        adv = [x for x in t[1] if isinstance(x, tuple) and len(x) == 4 and x[0] == "upd"]
+        if len(base) == 1 and all(isinstance(x[1], str) and x[1].endswith("::next") for x in adv):
+            return base[0]
+        return None
+    return t
+
+
 def gamma_select(t, test):
     """for a gamma term: {key: value} where key = test(cond, labs) for each branch (None keys kept as None)"""
     if not (isinstance(t, tuple) and t and t[0] == "gamma"):
@@ -1689,6 +1768,21 @@ def asserts_fail(t, labs, pred):
     """the edge asserts that some value satisfying pred is None/Err/Break"""
     r = presence_test(t, labs)
     return bool(r and r[1] is False and any(pred(s) for s in _subjects(r[0], True)))
+
+
+def presence_selection(t, pred):
+    """for a selection γ(test){..} whose test is a presence test of a value satisfying pred:
+    ({True: value when present, False: value when absent}, the tested value)"""
+    sel, subj = {}, None
+    if isinstance(t, tuple) and t and t[0] == "gamma":
+        for l, v in t[2]:
+            r = presence_test(t[1], l)
+            if r is not None and r[1] is not None:
+                s = [x for x in _subjects(r[0], True) if pred(x)]
+                if s:
+                    sel[r[1]] = v
+                    subj = s[0]
+    return sel, subj
 
 
 def tests_presence_of(t, pred):
@@ -1793,6 +1887,87 @@ def contradicting_edges(body, decisions):
             if sc != succ:
                 out.append((sb, sc))
     return out
+
+
+def byte_segments(t):
+    """Ordered segments of a byte-sequence-building value, whichever way it is built:
+    `a.into_iter().chain(b).chain(c).collect()`  or  `let mut v = Vec::new(); v.push(x); v.extend(b); v` (functional
+    updates of one buffer).  A pushed element x is the one-element array segment ("array", (x,)) — the same as `[x]`.
+    A part that is only present under a test — `opt.map(f).into_iter().flatten()` in a chain, or `if let Some(x) = opt
+    { v.extend(f(x)) }` — is ("when", test term, edge label, [segments]).  Give it normal-form terms (normal.Normalizer)."""
+    from . import names as _n
+    is_ = lambda name, *ps: any(_n.is_(name, p) for p in ps)
+    while isinstance(t, tuple) and len(t) == 4 and t[0] == "call" and is_(t[1], "Iterator::collect", "IntoIterator::into_iter", "Iterator::copied", "Iterator::cloned", "slice::iter", "Vec::from", "slice::to_vec") and t[2]:
+        t = t[2][0]
+    if isinstance(t, tuple) and len(t) == 4 and t[0] == "call":
+        if is_(t[1], "Iterator::chain"):
+            return byte_segments(t[2][0]) + byte_segments(t[2][1])
+        if is_(t[1], "Vec::new", "Vec::with_capacity") or (is_(t[1], "Default::default") and not t[2]):
+            return []
+        if is_(t[1], "iter::once", "core::iter::sources::once::once") and t[2]:
+            return [("array", (t[2][0],))]
+        if is_(t[1], "Iterator::flatten") and t[2]:
+            # an Option (or a selection yielding Some(x)/None) flattened into the stream: present only when Some
+            x = t[2][0]
+            while isinstance(x, tuple) and len(x) == 4 and x[0] == "call" and is_(x[1], "IntoIterator::into_iter", "Option::into_iter", "Option::iter") and x[2]:
+                x = x[2][0]
+            if isinstance(x, tuple) and x and x[0] == "gamma":
+                out = []
+                for l, v in x[2]:
+                    if isinstance(v, tuple) and len(v) == 4 and v[0] == "agg" and v[1] == "core::option::Option":
+                        if v[2] == "Some":
+                            out.append(("when", x[1], l, byte_segments(dict(v[3])["0"])))
+                    else:
+                        return [t]
+                return out
+            if isinstance(x, tuple) and len(x) == 4 and x[0] == "agg" and x[1] == "core::option::Option":
+                return byte_segments(dict(x[3])["0"]) if x[2] == "Some" else []
+    if isinstance(t, tuple) and len(t) == 4 and t[0] == "upd" and isinstance(t[1], str):
+        prev, args = t[2], t[3]
+        if is_(t[1], "Vec::push") and len(args) == 1:
+            return byte_segments(prev) + [("array", (args[0],))]
+        if is_(t[1], "Extend::extend", "Vec::extend_from_slice", "Vec::extend", "Vec::append") and len(args) == 1:
+            return byte_segments(prev) + byte_segments(args[0])
+    if isinstance(t, tuple) and t and t[0] == "gamma" and len(t[2]) == 2:
+        # the buffer after `if test { buffer.extend(x) }`: common prefix and suffix, the difference is conditional
+        (l1, v1), (l2, v2) = t[2]
+        s1, s2 = byte_segments(v1), byte_segments(v2)
+        if s1 != [v1] or s2 != [v2]:
+            # align the two segment lists (longest common subsequence); what differs is conditional
+            n1, n2 = len(s1), len(s2)
+            L = [[0] * (n2 + 1) for _ in range(n1 + 1)]
+            for i in range(n1 - 1, -1, -1):
+                for j in range(n2 - 1, -1, -1):
+                    L[i][j] = L[i + 1][j + 1] + 1 if s1[i] == s2[j] else max(L[i + 1][j], L[i][j + 1])
+            out, i, j, g1, g2 = [], 0, 0, [], []
+
+            def flush():
+                if g1 and g2 and len(g1) == len(g2) and all(a[0] == "array" and b[0] == "array" and len(a[1]) == 1 and len(b[1]) == 1 for a, b in zip(g1, g2)):
+                    for a, b in zip(g1, g2):
+                        out.append(("array", (simplify_term(("gamma", t[1], ((l1, a[1][0]), (l2, b[1][0])))),)))
+                else:
+                    if g1:
+                        out.append(("when", t[1], l1, list(g1)))
+                    if g2:
+                        out.append(("when", t[1], l2, list(g2)))
+                del g1[:], g2[:]
+            while i < n1 and j < n2:
+                if s1[i] == s2[j]:
+                    flush()
+                    out.append(s1[i])
+                    i += 1
+                    j += 1
+                elif L[i + 1][j] >= L[i][j + 1]:
+                    g1.append(s1[i])
+                    i += 1
+                else:
+                    g2.append(s2[j])
+                    j += 1
+            g1.extend(s1[i:])
+            g2.extend(s2[j:])
+            flush()
+            return out
+    return [t]
 
 
 def strip_sites(t):
